@@ -11,11 +11,17 @@
 //!     copy of the element; every assignment through it is followed by the write-back `self.v := vecSet self.v i slot`
 //!     (`i` is frozen when the borrow is taken);
 //!   * `e?`, a read of a `ManuallyDrop` cell, `get_unchecked(i)` are `match … with | none => <the function returns None> | some x => …`
-//!     around the rest of the block.
+//!     around the rest of the block;
+//!   * a `&mut S` parameter (S a struct) is state like `self`: the function returns its new value too;
+//!   * the call of a method that changes its receiver (`&mut self`; translated earlier or given by --prim) is
+//!     `let (r, q) := f recv args` followed by the store of `r` into the receiver; when the callee can panic (`Outcome`) it is
+//!     `match f recv args with | .panic msg => .panic msg | .ok (r, q) => …` around the rest of the block;
+//!   * `for x in 0..n { body }` is `forRange n state (fun x state => body)` over the state the body changes (`forRangeO` when
+//!     the body can panic).
 //! Everything outside the supported subset is rejected with an error (file:line: message) — the translator never guesses.
 //!
 //! Supported subset
-//!   items       `impl[<T, …>] X[<T, …>] { fn f([&self | &mut self,] x: Ty, …) [-> Ty] { … } }` for several `X` of one file;
+//!   items       `impl[<T, …>] X[<T, …>] { fn f([&self | &mut self,] x: Ty, y: &mut S, …) [-> Ty] { … } }` for several `X` of one file;
 //!               the generic parameters of the impl must be given Lean types (`--type T=α`); a generic parameter of the fn
 //!               must be a closure type (`F: FnOnce(A) -> B`, → a pure Lean function)
 //!   types       u8 u16 u32 u64 usize NonZeroU32 NonZeroU64 (→ Nat), bool, `Vec<T>` (→ List), `Option<T>`, tuples, `&T` (→ T),
@@ -27,13 +33,15 @@
 //!               `V.insert(i, x);` `V.push(x);` `V.remove(i);` `V.resize(n, x);` `V.swap_remove(i);` (V a Vec field),
 //!               `assert!`/`debug_assert!`/`assert_eq!`/`assert_ne!`/`debug_assert_eq!`/`assume_unchecked(..)` (skipped, listed),
 //!               `panic!(..)` (the function then returns an `Outcome`), `return [e];`, `unsafe { e }` (transparent, listed),
-//!               `if c {…} [else if …] [else {…}]`, `if let Some(x) = e {…} [else {…}]`,
+//!               `if c {…} [else if …] [else {…}]`, `if let Some(x) = e {…} [else {…}]`, `for x in 0..n {…}`, `x.g(..);` for a method
+//!               that changes its receiver,
 //!               `match e { … }` on a fieldless enum of the same file (one arm per variant, no guard, no `_`) or on an `Option`
 //!   expressions integer / bool literals, locals, places `x.f.g`, `e as u32|usize|…` (identity), `+ - %`, `< <= > >= == !=`,
 //!               `&& || !`, `u32::MAX`, `V.len()`, `V.get(i)`, `V.get_mut(i)`, `V.get_unchecked[_mut](i)`, `V.swap_remove(i)`,
 //!               `V.iter().position(|&p| p == x)`, `Some(e)`, `None`, tuples, struct literals, `if c { a } else { b }`,
 //!               `e?`, `e.unwrap()`, `e.unwrap_unchecked()`, `e.wrapping_add(k)`, `nz.get()`, `f(x)` for a closure parameter,
-//!               `T::g(..)` / `x.g(..)` for a function translated earlier in the same run or given by `--prim`,
+//!               `T::g(..)` / `x.g(..)` for a function translated earlier in the same run or given by `--prim` (a closure literal
+//!               `|x| e` where the callee expects a closure; `Name(e)` for a tuple struct given by `--prim ::Name(T) -> R`),
 //!               `ManuallyDrop::new(e)`, `ManuallyDrop::take(&mut P)`, `mem::replace(dest, e)`, parentheses
 
 use proc_macro2::Span;
@@ -246,6 +254,8 @@ enum Pre {
     Bind { name: String, opt: String, line: usize, why: String },
     /// `let pat := rhs`
     Let { pat: String, rhs: String, line: usize },
+    /// `match call with | .panic msg => .panic msg | .ok pat => …rest of the block…` (the call of something that can panic)
+    OBind { pat: String, call: Vec<String>, line: usize, why: String },
 }
 
 #[derive(Default)]
@@ -318,6 +328,8 @@ struct Sig {
     params: Vec<Ty>,
     ret: Ty,
     has_panic: bool,
+    /// number of `&mut` parameters besides `self`
+    mut_params: usize,
     lean: String,
     /// type-class instances the definition asks for (tyvar names)
     deceq: BTreeSet<String>,
@@ -332,6 +344,10 @@ struct Prim {
     /// None = a constant
     args: Option<Vec<String>>,
     method: bool,
+    /// `&mut self`: the Lean function returns the new receiver (paired with the result, if there is one)
+    self_mut: bool,
+    /// `-> Outcome<R>`: the Lean function returns an `Outcome`
+    panics: bool,
     ret: String,
     lean: String,
     spec: String,
@@ -367,6 +383,10 @@ struct Tr<'a> {
     /// state variables of the enclosing `State` blocks (innermost last)
     state: Vec<Vec<String>>,
     deferred_tys: BTreeMap<String, Ty>,
+    /// `&mut` parameters of a struct type (state, like `self` of a `&mut self` method)
+    mut_params: Vec<String>,
+    /// inside the body of a `for` loop: (the loop's state variables, can the body panic)
+    loop_ctx: Option<(Vec<String>, bool)>,
     /// some `if`/`match` statement returns a tuple of state variables (a component may go unused afterwards)
     tuple_state: bool,
 }
@@ -695,13 +715,38 @@ impl<'a> Tr<'a> {
 
     // ---------------------------------------------------------------- results
 
-    /// the function's result for the value `v` (None: a unit function)
+    /// the state the function threads through: `self` of a `&mut self` method and the `&mut` parameters
+    fn state_base(&self) -> Vec<String> {
+        let mut v = vec![];
+        if self.self_mut {
+            v.push("self".to_string());
+        }
+        v.extend(self.mut_params.iter().cloned());
+        v
+    }
+
+    fn is_state_var(&self, name: &str) -> bool {
+        (name == "self" && self.self_mut) || self.mut_params.iter().any(|p| p == name)
+    }
+
+    /// the state at the end of a `Tail` block: the function's, or the enclosing loop's
+    fn tail_state(&self) -> Vec<String> {
+        match &self.loop_ctx {
+            Some((vars, _)) => vars.clone(),
+            None => self.state_base(),
+        }
+    }
+
+    /// the function's result for the value `v` (None: a unit function); inside a loop body: the body's
     fn result(&self, v: Option<&str>) -> String {
-        let base = match (self.self_mut, v) {
-            (true, Some(v)) => format!("(self, {v})"),
-            (true, None) => "self".to_string(),
-            (false, Some(v)) => v.to_string(),
-            (false, None) => "()".to_string(),
+        let mut comps: Vec<String> = self.tail_state().iter().map(|x| lean_ident(x)).collect();
+        if let Some(v) = v {
+            comps.push(v.to_string());
+        }
+        let base = match comps.len() {
+            0 => "()".to_string(),
+            1 => comps.remove(0),
+            _ => format!("({})", comps.join(", ")),
         };
         if self.has_panic {
             if base.contains(' ') && !base.starts_with('(') {
@@ -722,7 +767,15 @@ impl<'a> Tr<'a> {
         if self.no_hoist > 0 {
             return self.unsupported(sp, "early exit or effect inside a conditionally evaluated operand:");
         }
+        if let Pre::OBind { .. } = p {
+            if !self.has_panic {
+                return self.err(sp, "internal: a call that can panic in a function not marked as panicking");
+            }
+        }
         if let Pre::Bind { .. } = p {
+            if self.loop_ctx.is_some() {
+                return self.unsupported(sp, "early exit to `None` inside a loop body:");
+            }
             if self.effect_seen {
                 return self.unsupported(sp, "early exit after an effect in the same statement:");
             }
@@ -735,7 +788,7 @@ impl<'a> Tr<'a> {
     }
 
     fn binds_in(pre: &[Pre]) -> usize {
-        pre.iter().filter(|p| matches!(p, Pre::Bind { .. })).count()
+        pre.iter().filter(|p| matches!(p, Pre::Bind { .. } | Pre::OBind { .. })).count()
     }
 
     /// `inner` (translated with `match_depth` raised by the number of binds in `pre`) behind the lets and binds of `pre`
@@ -747,6 +800,20 @@ impl<'a> Tr<'a> {
         for p in pre.into_iter().rev() {
             match p {
                 Pre::Let { pat, rhs, line } => lines.insert(0, format!("let {pat} := {rhs}  -- L{line}")),
+                Pre::OBind { pat, mut call, line, why } => {
+                    k -= 1;
+                    call[0] = format!("match {}", call[0]);
+                    let last = call.len() - 1;
+                    call[last] = match call[last].find("  -- ") {
+                        Some(c) => format!("{} with{}", &call[last][..c], &call[last][c..]),
+                        None => format!("{} with  -- L{line}: {why}", call[last]),
+                    };
+                    let mut m = call;
+                    m.push("| .panic msg => .panic msg".to_string());
+                    m.push(format!("| .ok {pat} =>"));
+                    m.extend(indent(lines));
+                    lines = if self.match_depth + k > 0 { paren_lines(m) } else { m };
+                }
                 Pre::Bind { name, opt, line, why } => {
                     k -= 1;
                     let mut m = vec![format!("match {opt} with  -- L{line}: {why}"), format!("| none => {exit}"), format!("| some {} =>", lean_ident(&name))];
@@ -1104,7 +1171,8 @@ fn parse_prim(spec: &str, lean: &str) -> Result<Prim, String> {
         }
         let close = close.ok_or_else(bad)?;
         let mut args = split_top(&rest[open + 1..close]);
-        let method = args.first().map(|a| a == "self" || a == "&self").unwrap_or(false);
+        let self_mut = args.first().map(|a| a == "&mut self").unwrap_or(false);
+        let method = self_mut || args.first().map(|a| a == "self" || a == "&self").unwrap_or(false);
         if method {
             args.remove(0);
         }
@@ -1114,13 +1182,17 @@ fn parse_prim(spec: &str, lean: &str) -> Result<Prim, String> {
             None if tail.is_empty() => "()".to_string(),
             None => return Err(bad()),
         };
+        let (ret, panics) = match ret.strip_prefix("Outcome<").and_then(|r| r.strip_suffix('>')) {
+            Some(inner) => (inner.trim().to_string(), true),
+            None => (ret, false),
+        };
         if name.is_empty() {
             return Err(bad());
         }
-        Ok(Prim { ty, name, args: Some(args), method, ret, lean: lean.to_string(), spec: spec.to_string() })
+        Ok(Prim { ty, name, args: Some(args), method, self_mut, panics, ret, lean: lean.to_string(), spec: spec.to_string() })
     } else {
         let (name, ret) = rest.split_once(':').ok_or_else(bad)?;
-        Ok(Prim { ty, name: name.trim().to_string(), args: None, method: false, ret: ret.trim().to_string(), lean: lean.to_string(), spec: spec.to_string() })
+        Ok(Prim { ty, name: name.trim().to_string(), args: None, method: false, self_mut: false, panics: false, ret: ret.trim().to_string(), lean: lean.to_string(), spec: spec.to_string() })
     }
 }
 
